@@ -28,6 +28,7 @@ typedef struct { uint8_t c, a, b, d; } op_t;
 #define MAXH 48
 typedef struct { int n; op_t ops[MAXH]; } hist_t;
 
+void __sanitizer_print_stack_trace(void);
 static int res_fd = 1;              /* child: where the result line goes */
 static hist_t cur_hist;             /* history being executed (for reports) */
 static int cur_probe = -1;
@@ -73,7 +74,7 @@ static void emit_viol(const char *rule, const char *sig, const char *detail) {
 __attribute__((format(printf, 3, 4), noreturn))
 static void vfail(const char *rule, const char *sig, const char *fmt, ...) {
     char d[900]; va_list ap; va_start(ap, fmt); vsnprintf(d, sizeof d, fmt, ap); va_end(ap);
-    if (verbose) fprintf(stderr, "VIOLATION %s [%s]: %s\n", rule, sig, d);
+    if (verbose) { fprintf(stderr, "VIOLATION %s [%s]: %s\n", rule, sig, d); __sanitizer_print_stack_trace(); }
     emit_viol(rule, sig, d);
     _exit(0);
 }
